@@ -501,6 +501,7 @@ func operandHelperOf(f *ssa.Function, writeRune *ssa.Function) *operandHelper {
 		return false
 	}
 	var open, closeC, child ssa.Instruction
+	var children []ssa.Instruction
 	okShape := true
 	allInstrs(f, func(b *ssa.BasicBlock, _ int, in ssa.Instruction) {
 		call, ok := in.(*ssa.Call)
@@ -508,10 +509,7 @@ func operandHelperOf(f *ssa.Function, writeRune *ssa.Function) *operandHelper {
 			return
 		}
 		if call.Call.IsInvoke() && call.Call.Method.Name() == "WriteTo" && call.Call.Value == ssa.Value(f.Params[h.opIdx]) {
-			if child != nil {
-				okShape = false
-			}
-			child = call
+			children = append(children, call)
 			return
 		}
 		if call.Call.StaticCallee() == writeRune {
@@ -537,6 +535,20 @@ func operandHelperOf(f *ssa.Function, writeRune *ssa.Function) *operandHelper {
 		}
 		okShape = false // any other call: not a pure operand writer
 	})
+	// one print of the operand between the parentheses; a second one is allowed on the path without them (the
+	// early-return form `if cond { ( x ) ; return }; x`)
+	if open != nil && closeC != nil {
+		for _, ch := range children {
+			if instrReachableAfter(open, ch) && instrReachableAfter(ch, closeC) {
+				if child != nil {
+					okShape = false
+				}
+				child = ch
+			} else if instrReachableAfter(open, ch) || instrReachableAfter(ch, open) {
+				okShape = false // printed on the parenthesised path as well, outside the parentheses
+			}
+		}
+	}
 	if !okShape || open == nil || closeC == nil || child == nil {
 		return nil
 	}
